@@ -79,7 +79,15 @@ func vCreateSegment(name string, opt Options) error {
 	f := &vGFile{data: make([]byte, size), durable: make([]byte, size), exists: true}
 	// the real createSegment truncates to size, zeroes the last 16 bytes and fsyncs the file
 	vFS[name] = f
-	vOrder = append(vOrder, name)
+	known := false
+	for _, n := range vOrder {
+		if n == name {
+			known = true
+		}
+	}
+	if !known {
+		vOrder = append(vOrder, name)
+	}
 	vCrashPoint("create.after")
 	return nil
 }
